@@ -4,6 +4,7 @@ mod c08;
 mod c10;
 mod c17;
 mod exec;
+mod srvfn;
 
 fn main() {
     let sub = std::env::args().nth(1).unwrap_or_default();
